@@ -1,0 +1,26 @@
+//go:build verif
+
+package timex
+
+import (
+	"sync/atomic"
+	"time"
+)
+
+// verif 构建标签下的虚拟时钟钩子：安装后 Now/Since 读取该函数而非真实时钟。
+const verifEnabled = true
+
+var verifClock atomic.Value // func() time.Duration
+
+// SetVerifClock 安装（或传 nil 卸载）虚拟时钟，仅在 verif 构建标签下存在。
+func SetVerifClock(fn func() time.Duration) {
+	verifClock.Store(&fn)
+}
+
+func verifNow() (time.Duration, bool) {
+	p, _ := verifClock.Load().(*func() time.Duration)
+	if p == nil || *p == nil {
+		return 0, false
+	}
+	return (*p)(), true
+}
